@@ -56,7 +56,7 @@ type Feat struct {
 // Coq renders the features as a Gallina record.
 func (f Feat) Coq() string {
 	st := "None"
-	if f.Status >= 0 {
+	if f.Status > 0 {
 		st = fmt.Sprintf("(Some %d)", f.Status)
 	}
 	return fmt.Sprintf("(mkfeat %s %d %s %s %s %s %s %s %s %s %s %s %d)",
